@@ -250,7 +250,7 @@ func (r *hoverRun) line(req int, qs []any, gt any) map[string]any {
 	// `wf`: the header-field invariant the payee theorem assumes of parser output (TxWF in
 	// HL/Props/C20Hover.lean); the driver evaluates it on every tree of this line, so a parser
 	// that stops guaranteeing it shows up as a correspondence break.
-	return map[string]any{"scen": r.scen, "gt": gt, "req": req, "qs": qs, "docj": journalJ(docj),
+	return map[string]any{"scen": r.scen, "gt": gt, "req": req, "qs": qs, "docj": journalJ(docj), "doct": doc,
 		"wsres": wsres, "res": res, "impl": J{"figs": impl, "wf": true}}
 }
 
